@@ -145,7 +145,11 @@ def run_faces(ctx, desc):
     nm_u = {"face": "face", "Ydim": "y", "Xdim": "xs"}
     nm_v = {"face": "face", "Ydim": "ys", "Xdim": "x"}
     u = xr.DataArray(u_full, dims=ex + ["face", "y", "xs"]).transpose(*[nm_u.get(d, d) for d in desc["order"]])
-    v = xr.DataArray(v_full, dims=ex + ["face", "ys", "x"]).transpose(*[nm_v.get(d, d) for d in desc["order"]])
+    # the two components need not be stored alike: in a third of the cases the partner has its own dimension order
+    order_v = list(desc["order"])
+    if desc["dseed"] % 3 == 1:
+        np.random.default_rng(desc["dseed"]).shuffle(order_v)
+    v = xr.DataArray(v_full, dims=ex + ["face", "ys", "x"]).transpose(*[nm_v.get(d, d) for d in order_v])
     a = desc["comp"]
     op = desc["op"]
     fop = stencil.OPS[op]
